@@ -1,1 +1,344 @@
+(* Extract_proofs.v — lemmas and proofs about model/Tree.v and model/Extract.v
+   (properties C14 and the extractor-totality part of C20). *)
 From Koreo Require Import Tree Extract.
+From Coq Require Import Lia.
+Local Open Scope string_scope.
+Local Open Scope list_scope.
+Local Open Scope nat_scope.
+
+(* ================================================================== *)
+(* A. nonterminal names *)
+
+Lemma nt_of_string_name : forall d x, nt_of_string d = Some x -> d = nt_name x.
+Proof.
+  intros d x. unfold nt_of_string, all_nts. cbn [find nt_name].
+  repeat match goal with
+         | |- context [String.eqb ?a d] =>
+             destruct (String.eqb_spec a d);
+             [ intro H; inversion H; subst; reflexivity | ]
+         end.
+  discriminate.
+Qed.
+
+Lemma nt_of_string_nt_name : forall x, nt_of_string (nt_name x) = Some x.
+Proof. destruct x; reflexivity. Qed.
+
+Lemma nt_name_inj : forall x y, nt_name x = nt_name y -> x = y.
+Proof.
+  intros x y H. pose proof (nt_of_string_nt_name x) as Hx. rewrite H in Hx.
+  rewrite nt_of_string_nt_name in Hx. congruence.
+Qed.
+
+Lemma is_sub_inv : forall x c, is_sub x (head_of c) = true -> exists cs, c = N (nt_name x) cs.
+Proof.
+  intros x [d cs|ty v] H; [|discriminate H].
+  unfold is_sub, head_of in H.
+  destruct (nt_of_string d) as [y|] eqn:E; [|discriminate H].
+  apply String.eqb_eq in H. apply nt_of_string_name in E. subst d.
+  exists cs. now rewrite H.
+Qed.
+
+Lemma is_tok_inv : forall ty c, is_tok ty (head_of c) = true -> exists v, c = Tok ty v.
+Proof.
+  intros ty [d cs|t v] H; [discriminate H|].
+  cbn in H. apply String.eqb_eq in H. subst. now exists v.
+Qed.
+
+Lemma is_sub_any_inv : forall xs c, is_sub_any xs (head_of c) = true ->
+  exists x cs, In x xs /\ c = N (nt_name x) cs.
+Proof.
+  intros xs c H. unfold is_sub_any in H. apply existsb_exists in H.
+  destruct H as (x & Hin & Hx). apply is_sub_inv in Hx. destruct Hx as (cs & ->).
+  now exists x, cs.
+Qed.
+
+(* ================================================================== *)
+(* B. what well-formedness gives *)
+
+Definition child_wf (c : node) : bool :=
+  match c with Tok _ _ => true | N _ _ => cel_tree_wf c end.
+
+Lemma wf_inv : forall d cs, cel_tree_wf (N d cs) = true ->
+  exists x, d = nt_name x /\ shape x (map head_of cs) = true /\
+            forallb tok_ok cs = true /\ forallb child_wf cs = true.
+Proof.
+  intros d cs H. cbn [cel_tree_wf] in H. destruct (nt_of_string d) as [x|] eqn:E; [|discriminate H].
+  apply andb_true_iff in H. destruct H as [H H3]. apply andb_true_iff in H. destruct H as [H1 H2].
+  exists x. split; [now apply nt_of_string_name|]. repeat split; assumption.
+Qed.
+
+Lemma wf_intro : forall x cs, shape x (map head_of cs) = true -> forallb tok_ok cs = true ->
+  forallb child_wf cs = true -> cel_tree_wf (N (nt_name x) cs) = true.
+Proof.
+  intros x cs H1 H2 H3. cbn [cel_tree_wf]. rewrite nt_of_string_nt_name.
+  unfold child_wf in H3. rewrite H1, H2. cbn [andb]. exact H3.
+Qed.
+
+Lemma wf_is_tree : forall n, cel_tree_wf n = true -> exists d cs, n = N d cs.
+Proof. intros [d cs|ty v] H; [now exists d, cs|discriminate]. Qed.
+
+Lemma child_wf_sub : forall d cs, child_wf (N d cs) = true -> cel_tree_wf (N d cs) = true.
+Proof. intros; assumption. Qed.
+
+(* every subtree of a grammar tree is a grammar tree *)
+Lemma subtrees_wf : forall n, cel_tree_wf n = true ->
+  Forall (fun s => cel_tree_wf s = true) (subtrees n).
+Proof.
+  induction n as [d cs IH|ty v] using node_ind'; intro H; [|discriminate].
+  cbn [subtrees]. constructor; [assumption|].
+  apply wf_inv in H. destruct H as (x & _ & _ & _ & Hc).
+  rewrite forallb_forall in Hc. rewrite Forall_forall in IH.
+  apply Forall_forall. intros s Hs. apply in_flat_map in Hs. destruct Hs as (c & Hc1 & Hc2).
+  specialize (IH c Hc1). specialize (Hc c Hc1).
+  destruct c as [d' cs'|ty v]; [|cbn in Hc2; contradiction].
+  pose proof (IH Hc) as HF. rewrite Forall_forall in HF. now apply HF.
+Qed.
+
+Lemma subtrees_are_trees : forall n s, In s (subtrees n) -> is_tree s = true.
+Proof.
+  induction n as [d cs IH|ty v] using node_ind'; intros s Hs; [|contradiction].
+  cbn [subtrees] in Hs. destruct Hs as [<-|Hs]; [reflexivity|].
+  apply in_flat_map in Hs. destruct Hs as (c & Hc1 & Hc2).
+  rewrite Forall_forall in IH. eapply IH; eassumption.
+Qed.
+
+(* ---- tactics for reading a production off [shape] ---- *)
+
+Ltac split_and H :=
+  repeat match type of H with
+         | (_ && _) = true =>
+             let H1 := fresh H in
+             apply andb_true_iff in H; destruct H as [H1 H]; split_and H1
+         end.
+
+Ltac inv_heads :=
+  repeat match goal with
+         | H : is_sub _ (head_of _) = true |- _ =>
+             apply is_sub_inv in H; destruct H as (? & ->)
+         | H : is_tok _ (head_of _) = true |- _ =>
+             apply is_tok_inv in H; destruct H as (? & ->)
+         end.
+
+(* x is now known: read the children off the rule *)
+Ltac read_shape Hs cs :=
+  destruct cs as [|? [|? [|? [|? ?]]]];
+  cbn [shape opt_left ident_optargs map] in Hs; try discriminate Hs;
+  split_and Hs; inv_heads.
+
+Lemma wf_name_inv : forall x cs, cel_tree_wf (N (nt_name x) cs) = true ->
+  shape x (map head_of cs) = true /\ forallb tok_ok cs = true /\ forallb child_wf cs = true.
+Proof.
+  intros x cs H. apply wf_inv in H. destruct H as (y & Hn & H).
+  apply nt_name_inj in Hn. now subst y.
+Qed.
+
+(* ---- the productions the extractor walks through ---- *)
+
+Lemma wf_member_dot : forall cs, cel_tree_wf (N "member_dot" cs) = true ->
+  exists mcs v, cs = [N "member" mcs; Tok "IDENT" v] /\ cel_tree_wf (N "member" mcs) = true.
+Proof.
+  intros cs H. apply (wf_name_inv Member_dot) in H. destruct H as (Hs & _ & Hc).
+  read_shape Hs cs. cbn [forallb child_wf] in Hc. split_and Hc.
+  eexists _, _. split; [reflexivity|assumption].
+Qed.
+
+Lemma wf_member_dot_arg : forall cs, cel_tree_wf (N "member_dot_arg" cs) = true ->
+  exists mcs v, cel_tree_wf (N "member" mcs) = true /\
+    (cs = [N "member" mcs; Tok "IDENT" v] \/
+     exists es, cs = [N "member" mcs; Tok "IDENT" v; N "exprlist" es]).
+Proof.
+  intros cs H. apply (wf_name_inv Member_dot_arg) in H. destruct H as (Hs & _ & Hc).
+  read_shape Hs cs; cbn [forallb child_wf] in Hc; split_and Hc;
+    eexists _, _; (split; [eassumption|]); [left; reflexivity|right; eexists; reflexivity].
+Qed.
+
+Lemma wf_member_index : forall cs, cel_tree_wf (N "member_index" cs) = true ->
+  exists mcs ecs, cs = [N "member" mcs; N "expr" ecs] /\
+    cel_tree_wf (N "member" mcs) = true /\ cel_tree_wf (N "expr" ecs) = true.
+Proof.
+  intros cs H. apply (wf_name_inv Member_index) in H. destruct H as (Hs & _ & Hc).
+  read_shape Hs cs. cbn [forallb child_wf] in Hc. split_and Hc.
+  eexists _, _. split; [reflexivity|split; assumption].
+Qed.
+
+Lemma wf_member : forall cs, cel_tree_wf (N "member" cs) = true ->
+  exists x rcs, cs = [N (nt_name x) rcs] /\ cel_tree_wf (N (nt_name x) rcs) = true /\
+    In x [Member_dot; Member_dot_arg; Member_index; Member_object; Primary].
+Proof.
+  intros cs H. apply (wf_name_inv Member) in H. destruct H as (Hs & _ & Hc).
+  read_shape Hs cs. apply is_sub_any_inv in Hs. destruct Hs as (x & rcs & Hin & ->).
+  cbn [forallb child_wf] in Hc. split_and Hc.
+  exists x, rcs. split; [reflexivity|split; assumption].
+Qed.
+
+Lemma wf_primary : forall cs, cel_tree_wf (N "primary" cs) = true ->
+  exists x pcs, cs = [N (nt_name x) pcs] /\ cel_tree_wf (N (nt_name x) pcs) = true /\
+    In x [Literal; Dot_ident_arg; Dot_ident; Ident_arg; Paren_expr; List_lit; Map_lit; Ident].
+Proof.
+  intros cs H. apply (wf_name_inv Primary) in H. destruct H as (Hs & _ & Hc).
+  read_shape Hs cs. apply is_sub_any_inv in Hs. destruct Hs as (x & rcs & Hin & ->).
+  cbn [forallb child_wf] in Hc. split_and Hc.
+  exists x, rcs. split; [reflexivity|split; assumption].
+Qed.
+
+Lemma wf_ident : forall cs, cel_tree_wf (N "ident" cs) = true -> exists v, cs = [Tok "IDENT" v].
+Proof.
+  intros cs H. apply (wf_name_inv Ident) in H. destruct H as (Hs & _ & _).
+  read_shape Hs cs. eexists; reflexivity.
+Qed.
+
+Lemma wf_literal : forall cs, cel_tree_wf (N "literal" cs) = true ->
+  exists ty a r, cs = [Tok ty (String a r)] /\ In ty literal_token_types.
+Proof.
+  intros cs H. apply (wf_name_inv Literal) in H. destruct H as (Hs & Ht & _).
+  read_shape Hs cs. apply existsb_exists in Hs. destruct Hs as (ty & Hin & Hty).
+  apply is_tok_inv in Hty. destruct Hty as (v & ->).
+  cbn [forallb tok_ok] in Ht.
+  assert (Hne : String.eqb ty "IDENT" = false).
+  { cbn [literal_token_types In] in Hin.
+    repeat (destruct Hin as [<-|Hin]; [reflexivity|]). contradiction. }
+  rewrite Hne in Ht. destruct v as [|a r]; [discriminate Ht|].
+  exists ty, a, r. split; [reflexivity|assumption].
+Qed.
+
+(* ================================================================== *)
+(* C. the extractor raises nothing but UnsupportedStructure inside, and nothing at all outside *)
+
+Definition safe {A} (r : res A) : Prop :=
+  match r with
+  | Done _ => True
+  | Raised EUnsupported => True
+  | Raised _ => False
+  end.
+
+Lemma safe_bind : forall A B (r : res A) (f : A -> res B),
+  safe r -> (forall a, r = Done a -> safe (f a)) -> safe (bind r f).
+Proof.
+  intros A B [a|e] f Hr Hf; cbn.
+  - now apply Hf.
+  - exact Hr.
+Qed.
+
+Lemma primary_safe : forall cs, cel_tree_wf (N "primary" cs) = true ->
+  safe (process_primary (N "primary" cs)).
+Proof.
+  intros cs H. apply wf_primary in H. destruct H as (x & pcs & -> & Hw & Hin).
+  cbn [In] in Hin.
+  repeat (destruct Hin as [<-|Hin]); try contradiction; cbn [nt_name] in *;
+    try (cbn; exact I).
+  - (* literal *)
+    apply wf_literal in Hw. destruct Hw as (ty & a & r & -> & _).
+    cbn. destruct (String.eqb ty "INT_LIT"); exact I.
+  - (* ident *)
+    apply wf_ident in Hw. destruct Hw as (v & ->). cbn. exact I.
+Qed.
+
+(* the nonterminals the index-expression descent can pass through *)
+Definition desc_nt (x : nt) : bool :=
+  match x with
+  | Expr | Conditionalor | Conditionaland
+  | Relation | Relation_lt | Relation_le | Relation_gt | Relation_ge | Relation_eq | Relation_ne | Relation_in
+  | Addition | Addition_add | Addition_sub
+  | Multiplication | Multiplication_mul | Multiplication_div | Multiplication_mod
+  | Unary | Unary_not | Unary_neg
+  | Member | Member_dot | Member_dot_arg | Member_index | Member_object | Primary => true
+  | _ => false
+  end.
+
+(* children[0] of such a node is again such a node (or there are no children) *)
+Lemma first_child_desc : forall x cs,
+  desc_nt x = true -> x <> Primary -> cel_tree_wf (N (nt_name x) cs) = true ->
+  cs = [] \/ exists y ccs rest, cs = N (nt_name y) ccs :: rest /\ desc_nt y = true /\
+                                 cel_tree_wf (N (nt_name y) ccs) = true.
+Proof.
+  intros x cs Hd Hp H. apply wf_name_inv in H. destruct H as (Hs & _ & Hc).
+  destruct x; try discriminate Hd; try congruence;
+    read_shape Hs cs; try (left; reflexivity); right;
+    repeat match goal with
+           | H : is_sub_any _ (head_of _) = true |- _ =>
+               apply is_sub_any_inv in H; destruct H as (? & ? & H & ->); cbn [In] in H
+           end;
+    cbn [forallb child_wf] in Hc; split_and Hc;
+    repeat match goal with
+           | H : _ = _ \/ _ |- _ => destruct H as [<-|H]
+           | H : False |- _ => contradiction
+           end;
+    eexists _, _, _; (split; [reflexivity|split; [reflexivity|eassumption]]).
+Qed.
+
+Lemma nt_eq_dec : forall x y : nt, {x = y} + {x <> y}.
+Proof. decide equality. Qed.
+
+Lemma nt_name_not_primary : forall x, x <> Primary -> String.eqb (nt_name x) "primary" = false.
+Proof. destruct x; intro H; try reflexivity; congruence. Qed.
+
+Lemma descend_safe : forall n x cs, n = N (nt_name x) cs -> desc_nt x = true ->
+  cel_tree_wf n = true -> safe (descend n).
+Proof.
+  induction n as [d cs0 IH|ty v] using node_ind'; intros x cs E Hd Hw; [|discriminate E].
+  inversion E; subst d cs0; clear E.
+  destruct (nt_eq_dec x Primary) as [->|Hne].
+  - cbn [nt_name] in *. pose proof (primary_safe _ Hw) as Hs.
+    apply wf_primary in Hw. destruct Hw as (y & pcs & -> & _ & _).
+    cbn [descend]. replace (String.eqb "primary" "primary") with true by reflexivity.
+    apply safe_bind; [exact Hs|]. intros; exact I.
+  - destruct (first_child_desc x cs Hd Hne Hw) as [->|(y & ccs & rest & -> & Hdy & Hwy)].
+    + cbn. exact I.
+    + cbn [descend]. rewrite (nt_name_not_primary x Hne).
+      inversion IH as [|? ? IHc _]; subst. eapply IHc; [reflexivity|exact Hdy|exact Hwy].
+Qed.
+
+Definition mode_nt (m : mode) : nt :=
+  match m with MDot => Member_dot | MDotArg => Member_dot_arg | MIndex => Member_index end.
+
+(* the root dispatch shared by the three functions, once the receiver [member] node is known *)
+Ltac root_cases Hin IHk Hroot :=
+  cbn [In] in Hin;
+  repeat (destruct Hin as [<-|Hin]); try contradiction; cbn [nt_name] in *;
+  cbn [String.eqb Ascii.eqb Bool.eqb];
+  [ apply safe_bind; [apply (IHk _ MDot _); [|reflexivity|exact Hroot]|intros; exact I]
+  | apply safe_bind; [apply (IHk _ MDotArg _); [|reflexivity|exact Hroot]|intros; exact I]
+  | apply safe_bind; [apply (IHk _ MIndex _); [|reflexivity|exact Hroot]|intros; exact I]
+  | exact I
+  | apply safe_bind; [apply primary_safe; exact Hroot|intros; exact I] ].
+
+Lemma terminal_index_safe : forall ecs, cel_tree_wf (N "expr" ecs) = true ->
+  safe (terminal MIndex (N "expr" ecs)).
+Proof.
+  intros ecs H. cbn [terminal]. cbn [String.eqb Ascii.eqb Bool.eqb].
+  apply safe_bind.
+  - eapply (descend_safe _ Expr); [reflexivity|reflexivity|exact H].
+  - intros [v|] _; [|exact I]. destruct (String.eqb v ""); exact I.
+Qed.
+
+Lemma proc_safe_k : forall k n m cs, size n <= k -> n = N (nt_name (mode_nt m)) cs ->
+  cel_tree_wf n = true -> safe (proc m n).
+Proof.
+  induction k as [|k IHk]; intros n m cs Hk E Hw.
+  - subst n. cbn [size] in Hk. exfalso. lia.
+  - subst n. destruct m; cbn [mode_nt nt_name] in *.
+    + (* _process_member_dot *)
+      apply wf_member_dot in Hw. destruct Hw as (mcs & v & -> & Hm).
+      apply wf_member in Hm. destruct Hm as (x & rcs & -> & Hroot & Hin).
+      cbn [proc terminal fmt bind].
+      assert (Hsz : size (N (nt_name x) rcs) <= k) by (cbn [size map list_sum fold_right] in Hk |- *; lia).
+      root_cases Hin IHk Hroot; exact Hsz.
+    + (* _process_member_dot_arg *)
+      apply wf_member_dot_arg in Hw. destruct Hw as (mcs & v & Hm & Hcs).
+      apply wf_member in Hm. destruct Hm as (x & rcs & -> & Hroot & Hin).
+      destruct Hcs as [->|(es & ->)].
+      * cbn. exact I.
+      * cbn [proc terminal fmt bind].
+        assert (Hsz : size (N (nt_name x) rcs) <= k) by (cbn [size map list_sum fold_right] in Hk |- *; lia).
+        root_cases Hin IHk Hroot; exact Hsz.
+    + (* _process_member_index *)
+      apply wf_member_index in Hw. destruct Hw as (mcs & ecs & -> & Hm & He).
+      apply wf_member in Hm. destruct Hm as (x & rcs & -> & Hroot & Hin).
+      cbn [proc]. apply safe_bind; [apply terminal_index_safe; exact He|]. intros term _.
+      assert (Hsz : size (N (nt_name x) rcs) <= k) by (cbn [size map list_sum fold_right] in Hk |- *; lia).
+      root_cases Hin IHk Hroot; exact Hsz.
+Qed.
+
+Lemma proc_safe : forall m cs, cel_tree_wf (N (nt_name (mode_nt m)) cs) = true ->
+  safe (proc m (N (nt_name (mode_nt m)) cs)).
+Proof. intros m cs H. eapply proc_safe_k; [apply le_n|reflexivity|exact H]. Qed.
